@@ -20,7 +20,8 @@ THEOREMS = [("Sylvia.Thm.C18", "C18." + t) for t in
             ("Sylvia.Thm.ReplyOnFn", "ReplyOnFn.excludes_eq"), ("Sylvia.Thm.ReplyOnFn", "ReplyOnFn.excludes_symmetric"),
             ("Sylvia.Thm.ReplyParamFn", "ReplyParamFn.as_data_field_spec"), ("Sylvia.Thm.ReplyParamFn", "ReplyParamFn.assert_no_redundant_params_spec"),
             ("Sylvia.Thm.ReplyParamFn", "ReplyParamFn.enumFindFrom_first"), ("Sylvia.Thm.ReplyParamFn", "ReplyParamFn.as_variant_handlers_pair_spec"),
-            ("Sylvia.Thm.ReplyNewFn", "ReplyNewFn.new_spec"), ("Sylvia.Thm.ReplyNewFn", "ReplyNewFn.new_total")]
+            ("Sylvia.Thm.ReplyNewFn", "ReplyNewFn.new_spec"), ("Sylvia.Thm.ReplyNewFn", "ReplyNewFn.new_total"),
+            ("Sylvia.Thm.ReplyNewFn", "ReplyNewFn.merge_spec"), ("Sylvia.Thm.ReplyNewFn", "ReplyNewFn.merge_empty")]
 
 
 # ---------------------------------------------------------------------------------------------
@@ -530,7 +531,7 @@ def run(ctx):
         ctx.obligation_failed("function-translator(replyon)", "; ".join(ro_problems)[:1500])
     # ... and the placement rules of `#[sv::data]` / `#[sv::payload(raw)]` parameters (as_data_field, assert_no_redundant_params of reply.rs)
     rn_problems = rs2lean.regenerate("replynew")
-    ctx.cov["function_translator_replynew"] = {"source": "sylvia-derive/src/contract/communication/reply.rs::ReplyData::new", "problems": rn_problems}
+    ctx.cov["function_translator_replynew"] = {"source": "sylvia-derive/src/contract/communication/reply.rs::ReplyData::{new, merge}", "problems": rn_problems}
     if rn_problems:
         ctx.obligation_failed("function-translator(replynew)", "; ".join(rn_problems)[:1500])
     rp_problems = rs2lean.regenerate("replyparams")
